@@ -4,7 +4,7 @@ import ShroudVerif.Lemmas.LuaDispatch
 # C18  The generated Lua binding is call-equivalent to the wrapped library
 
 `gen k ovs` is the function body `Wrapl.wrap_function` writes for the overloads `ovs` of one Lua
-name (model of the code after the `fix:` commits 5605135, a00c47c and d761e08), `run selfOk body s`
+name (model of the code after the `fix:` commits 5605135, a00c47c and d74984b), `run selfOk body s`
 is what that body does on the Lua stack `s`, `expected selfOk k ovs s` is the property stated on
 the declarations: the first call of `luaCalls` (declaration order; one per overload and per
 omitted-default prefix) whose parameter tags equal the tags of the arguments, with the stack
@@ -12,7 +12,7 @@ values as arguments and that overload's result count; otherwise `luaL_error` and
 
 * `dispatch_correct`: the full statement for every name -- free functions, constructors, methods,
   destructors; one signature or many.  Only hypothesis: at most one signature takes no argument.
-* `single_call_*_before_fix`: the body written before d761e08 for a name with one signature tested
+* `single_call_*_before_fix`: the body written before d74984b for a name with one signature tested
   nothing (historical negation witnesses); `old_method_dispatch_wrong`: before 5605135 methods.
 * registration: `groups_*`, `lookupReg_*`: every gathered group is entered once and a Lua name
   reaches its own C function exactly when names are distinct; objects: a constructor's value passes
@@ -124,7 +124,7 @@ theorem zero_arg_calls_both_run :
     run (fun _ => true) (gen .free [⟨[], false⟩, ⟨[⟨.number, true⟩], false⟩]) []
       = .ret [⟨0, 0, none, []⟩, ⟨1, 1, none, []⟩] 0 := by decide
 
-/-! ### names with exactly one call, before d761e08: no test was written -/
+/-! ### names with exactly one call, before d74984b: no test was written -/
 
 /-- (historical) whatever was on the stack, the only call was made, with the values found at the
     argument indices (absent values above the top); a method still checked its object -/
